@@ -219,11 +219,12 @@ var _ bufAPI = (*tex.Buffer)(nil)
 var _ bufAPI = (*bytes.Buffer)(nil)
 
 type scriptReader struct {
-	data  []byte
-	sizes []int
-	tail  int
-	term  string
-	i     int
+	data   []byte
+	sizes  []int
+	tail   int
+	term   string
+	greedy bool // after the chunk list: fill whatever is offered until the data is used up (like bytes.Reader)
+	i      int
 }
 
 func min3(a, b, c int) int {
@@ -241,6 +242,11 @@ func (r *scriptReader) Read(p []byte) (int, error) {
 		k := min3(r.sizes[r.i], len(p), len(r.data))
 		r.i++
 		copy(p, r.data[:k])
+		r.data = r.data[k:]
+		return k, nil
+	}
+	if r.greedy && len(r.data) > 0 {
+		k := copy(p, r.data)
 		r.data = r.data[k:]
 		return k, nil
 	}
@@ -286,12 +292,13 @@ func (w *scriptWriter) Write(p []byte) (int, error) {
 }
 
 type op struct {
-	name string
-	data []byte
-	n    int64
-	term string
-	tail int
-	ks   []int
+	name   string
+	data   []byte
+	n      int64
+	term   string
+	greedy bool
+	tail   int
+	ks     []int
 }
 
 // parseOp mirrors the oracle's parser; ok=false means `bad-op`.
@@ -345,6 +352,9 @@ func parseOp(f []string) (op, bool) {
 		}
 		o.data = d
 		o.term = f[2]
+		if strings.HasSuffix(o.term, "+") {
+			o.term, o.greedy = o.term[:len(o.term)-1], true
+		}
 		if o.term != "eof" && o.term != "err" && o.term != "neg" && o.term != "over" {
 			return o, false
 		}
@@ -435,7 +445,7 @@ func apply(b bufAPI, o op) (res string) {
 		b.Grow(int(o.n))
 		return "ok"
 	case "readfrom":
-		r := &scriptReader{data: append([]byte(nil), o.data...), sizes: o.ks, tail: o.tail, term: o.term}
+		r := &scriptReader{data: append([]byte(nil), o.data...), sizes: o.ks, tail: o.tail, term: o.term, greedy: o.greedy}
 		n, err := b.ReadFrom(r)
 		return fmt.Sprintf("n=%d err=%s", n, showErr(err))
 	case "writeto":
@@ -527,6 +537,7 @@ func (s *session) init(f []string) (string, bool) {
 			fresh(t, new(bytes.Buffer))
 			if t.Len() != 0 || t.Cap() < int(n) || len(t.Bytes()) != 0 {
 				s.hit("NewSizedBuffer", "not-empty-with-capacity", fmt.Sprintf("NewSizedBuffer(%d): Len=%d Cap=%d", n, t.Len(), t.Cap()))
+				s.diverged = true // later differences from bytes.Buffer are consequences of this one
 			}
 		}
 		return "T " + res + " " + view(s.t) + " ## B ok " + view(s.b), true
@@ -704,7 +715,7 @@ func spec() corr.Spec {
 		},
 		Assumptions: []string{
 			"bytes.Buffer of the sandbox's Go release (1.23.5) is the reference; its answers after Unread* that follows a Grow, and Cap(), are outside the property",
-			"readers handed to ReadFrom deliver chunks of at most MinRead bytes (so that what they deliver does not depend on the space offered) and return m <= len(p)+1; writers return 0 <= m",
+			"readers handed to ReadFrom either deliver chunks of at most MinRead bytes or fill whatever they are offered until their data is used up (so that what they deliver in total does not depend on the space offered) and return m <= len(p)+1; writers return 0 <= m",
 			"allocation fails exactly for requests beyond the runtime's maxAlloc (2^48); sizes between 4 MiB and 2^48 are never executed",
 			"bytes between len and cap of the storage are not modelled (never observable through the API)",
 		},
